@@ -248,6 +248,7 @@ struct Pay {
 	src: usize,
 	dst: usize,
 	id: PaymentId,
+	path: Path,
 }
 
 struct Net {
@@ -674,7 +675,8 @@ impl Net {
 		let pid = PaymentId(hash.0);
 		let route_params = lightning::routing::router::RouteParameters::from_payment_params_and_value(
 			lightning::routing::router::PaymentParameters::from_node_id(self.nodes[dst].node.get_our_node_id(), final_cltv), amt);
-		let route = Route { paths: vec![Path { hops, blinded_tail: None }], route_params };
+		let the_path = Path { hops, blinded_tail: None };
+		let route = Route { paths: vec![the_path.clone()], route_params };
 		// limits as reported right now for the first-hop channel
 		let first = path_nodes[0];
 		let key = if first.0 < first.1 { first } else { (first.1, first.0) };
@@ -687,7 +689,7 @@ impl Net {
 		let api_ok = res.is_ok();
 		let c = self.chan(&cid);
 		let mark = self.log.lock().unwrap().len();
-		self.pays.push(Pay { preimage, hash, secret, amt, src, dst, id: pid });
+		self.pays.push(Pay { preimage, hash, secret, amt, src, dst, id: pid, path: the_path });
 		self.drain();
 		// a locally refused HTLC shows up as an immediate PaymentPathFailed / PaymentFailed
 		let refused = !api_ok || self.log.lock().unwrap()[mark..].iter().any(|e| e["ev"] == "event" && e["hash"] == json!(h)
@@ -887,10 +889,49 @@ impl Net {
 				let i = op["node"].as_u64().unwrap() as usize;
 				if i < n { self.crash(i, name == "reload", op["mgr"].as_u64().unwrap_or(0) as usize, op["mon"].as_str().unwrap_or("durable"), rng); } else { did = false; }
 			},
-			"proj" => { let fin = op["final"].as_bool().unwrap_or(false); for i in 0..n { self.proj_ext(i, fin, false); } },
+			"proj" => { let fin = op["final"].as_bool().unwrap_or(false); for i in 0..n { self.proj_ext(i, fin, false); } if fin { self.scorer_round_trip(); } },
 			_ => { did = false; },
 		}
 		if did { self.executed += 1; } else { self.skipped += 1; let _ = before; }
+	}
+
+	/// C12: a ProbabilisticScorer fed with this run's payment paths is written and re-read; the copy
+	/// must re-encode to the same bytes and answer every liquidity query like the original.
+	fn scorer_round_trip(&mut self) {
+		use lightning::routing::scoring::{ProbabilisticScorer, ProbabilisticScoringDecayParameters, ScoreUpdate};
+		use lightning::routing::gossip::NodeId;
+		use std::time::Duration;
+		let graph = self.nodes[0].network_graph;
+		let logger = self.nodes[0].logger;
+		let mut scorer = ProbabilisticScorer::new(ProbabilisticScoringDecayParameters::default(), graph, logger);
+		for (k, p) in self.pays.iter().enumerate() {
+			let t = Duration::from_secs(1_000 + 37 * k as u64);
+			if k % 3 == 0 { scorer.payment_path_failed(&p.path, p.path.hops[p.path.hops.len() - 1].short_channel_id, t); }
+			else if k % 3 == 1 { scorer.payment_path_successful(&p.path, t); }
+			else { scorer.payment_path_failed(&p.path, p.path.hops[0].short_channel_id, t); }
+		}
+		let bytes = scorer.encode();
+		let mut r = &bytes[..];
+		let res = <ProbabilisticScorer<_, _> as ReadableArgs<_>>::read(&mut r, (ProbabilisticScoringDecayParameters::default(), graph, logger));
+		let (mut bytes_equal, mut answers_equal, mut read_ok) = (false, false, false);
+		if let Ok(s2) = res {
+			read_ok = r.is_empty();
+			bytes_equal = s2.encode() == bytes;
+			answers_equal = true;
+			for scid in self.scids.values() {
+				for nd in self.nodes.iter() {
+					let target = NodeId::from_pubkey(&nd.node.get_our_node_id());
+					if scorer.estimated_channel_liquidity_range(*scid, &target) != s2.estimated_channel_liquidity_range(*scid, &target) { answers_equal = false; }
+					for amt in [1_000u64, 1_000_000, 100_000_000] {
+						if scorer.historical_estimated_payment_success_probability(*scid, &target, amt, &Default::default(), true)
+							!= s2.historical_estimated_payment_success_probability(*scid, &target, amt, &Default::default(), true) { answers_equal = false; }
+					}
+				}
+			}
+		}
+		let mut trunc_ok = true;
+		if bytes.len() > 4 { let mut r = &bytes[..bytes.len() - 3]; if <ProbabilisticScorer<_, _> as ReadableArgs<_>>::read(&mut r, (ProbabilisticScoringDecayParameters::default(), graph, logger)).is_ok() { trunc_ok = false; } }
+		self.ev(json!({"ev":"rt_scorer","paths":self.pays.len(),"read_ok":read_ok,"bytes_equal":bytes_equal,"answers_equal":answers_equal,"truncated_refused":trunc_ok}));
 	}
 
 	/// Stop node `i` and restart it from persisted state. `reload`: latest manager, every monitor
